@@ -1,3 +1,26 @@
 import SteelVerif.C14.Props
 open SteelVerif.C14
-#print axioms stub_true
+#print axioms mangle_injective
+#print axioms mangle_not_user_writable
+#print axioms privates_disjoint
+#print axioms privates_distinct
+#print axioms flatten_is
+#print axioms prefixes_concatenate_outer_first
+#print axioms visible_iff_provided
+#print axioms import_refers_to_provided
+#print axioms only_in_missing_is_error
+#print axioms only_in_unknown_is_error_S
+#print axioms only_in_unknown_ignored_M
+#print axioms flat_agrees_with_composition
+#print axioms flat_differs_from_composition
+#print axioms instantiated_once
+#print axioms instantiated_only_if_needed
+#print axioms good_request_runs
+#print axioms instantiated_at_most_once_legacy
+#print axioms instantiated_once_legacy_partial
+#print axioms instantiated_once_legacy_fails
+#print axioms example_diamond
+#print axioms module_isolation
+#print axioms program_isolation
+#print axioms contract_at_boundary_only
+#print axioms module_isolation_legacy_fails
